@@ -667,6 +667,8 @@ class Compiler:
 
     @_compile.register
     def _print(self, node: ast.Print):
+        # The FROM clause of PRINT is an expression: no subquery in there.
+        self.subquery = False
         self.table = self.context.tables.get('entries')
         expr = self._compile_from(node.from_clause)
         return EvalPrint(self.table, expr)
